@@ -113,4 +113,34 @@ PROPS = {
                       "vanishes. The command-level clauses (ET average, units and order of the table, mean) are a bounded stand-in.",
         "level_note": "Assumed: quad returns the exact integral; transmissivity is any positive function; floats as reals.",
     },
+    "C15": {
+        "targets": ["spowtd.transmissivity:SplineTransmissivity.conductivity", "spowtd.transmissivity:SplineTransmissivity.call_scalar",
+                    "spowtd.transmissivity:SplineTransmissivity.__call__", "spowtd.transmissivity:SplineTransmissivity.__call__#array",
+                    "spowtd.spline:Spline.__call__"],
+        "bounded": [{"run": "bounded.transmissivity_checks:run_C15",
+                     "what": "bounded validation on real SplineTransmissivity objects against the closed-form integral of the log-linear "
+                             "conductivity: knots interpolated, minimum at/below the lowest knot, continuity, monotonicity, scalar == array"}],
+        "level_text": "Unbounded proof that conductivity is exp of the log-conductivity spline at the (clamped) level and refuses levels at or "
+                      "above the highest knot, that call_scalar returns the minimum at and below the lowest knot and otherwise the minimum "
+                      "plus Q(level) - Q(lowest knot) for the antiderivative Q of that conductivity (quad's integrand is only needed inside "
+                      "the open range, so the highest knot itself is admissible), and that the array path is the scalar path element-wise.",
+        "level_note": "Assumed: splrep(k=1) gives the interpolating piecewise-linear spline of log K (representation invariant of the object, "
+                      "validated bounded); quad returns the exact integral; exp uninterpreted with exp > 0. Monotonicity/continuity follow "
+                      "from positivity of the integrand (mathematical step, validated bounded).",
+    },
+    "C16": {
+        "targets": ["spowtd.specific_yield:campbell_1d_az", "spowtd.specific_yield:PeatclsmSpecificYield.get_Sy_soil",
+                    "spowtd.specific_yield:PeatclsmSpecificYield._construct_spline", "spowtd.transmissivity:PeatclsmTransmissivity.__call__"],
+        "bounded": [{"run": "bounded.peatclsm_checks:run_C16",
+                     "what": "bounded validation against an independent transcription of the shipped R script (no R interpreter on this image): "
+                             "published parameter set + seeded sets; transmissivity formula and refusal"}],
+        "level_text": "Unbounded proof that campbell_1d_az equals the Campbell / microtopography expression of the R script, that get_Sy_soil "
+                      "fills Sy_soil[i] with (1/dz_i) times the full sum over cells of dz_j (A_j(zu_i) - A_j(zl_i)) (double-loop invariants over "
+                      "a 2-D partial-sum function), that _construct_spline tabulates 201 mid-point levels with soil + normcdf terms and returns "
+                      "a spline through the table, and that PEATCLSM transmissivity is the stated formula and raises ValueError exactly above "
+                      "zeta_max.",
+        "level_note": "Assumed: norm.cdf and ** are uninterpreted; splrep(k=1) interpolates. 'Reproduces the R implementation' cannot be run "
+                      "(no R): the R file is the source of the spec; its inner loop covers 200 cells where Python sums 201 — the extra term "
+                      "is evaluated numerically and reported in the evidence.",
+    },
 }
